@@ -24,55 +24,70 @@ def strip_bb(t):
 
 
 def r_pairing(F, R, cat=None):
+    from core import all_ctxs
     cat = cat or Catalogue(F)
     bodies = fs_methods(F, "copy") + fs_methods(F, "extend", "Extend")
     R.floor("R-PAIRING", "FlatStack copy/extend bodies", len(bodies), 2)
-    for b in bodies:
-        R.saw(b)
-        ctx, effs = cat.effects(b)
-        rpush = [(bi, t) for (bi, t) in b.calls() if callee_tag(t.get("callee")) == ("Push", "push")
-                 and operand_tree(ctx, t["args"][0]) == place(b, "f:region")]
-        ipush = [(bi, t) for (bi, t) in b.calls() if callee_tag(t.get("callee")) == ("IndexContainer", "push")
-                 and operand_tree(ctx, t["args"][0]) == place(b, "f:indices")]
-        ok = len(rpush) >= 1 and len(rpush) == len(ipush)
+    for top in bodies:
+        R.saw(top)
+        tctx, effs = cat.effects(top)
+        found = 0
+        ok = True
         why = []
-        # each indices.push stores, unchanged, the result of one region.push
-        used = set()
-        for (ibi, it) in ipush:
-            a = operand_tree(ctx, it["args"][1])
-            if a[0] == "call" and a[1] == ("Push", "push") and a[4] in {bi for (bi, _) in rpush} and a[3] == ():
-                used.add(a[4])
-            else:
+        # the pairing may live in the body itself or in a closure it hands to for_each & co.
+        for ctx in all_ctxs(F, top):
+            b = ctx.body
+            region = trees(ctx, {(("arg", 1), ("f:region",))}) if ctx is not None else None
+
+            def is_field(t, fld):
+                return t == ("place", top.key, ("arg", 1), ("f:" + fld,))
+            rpush = [(bi, t) for (bi, t) in b.calls() if callee_tag(t.get("callee")) == ("Push", "push")
+                     and is_field(operand_tree(ctx, t["args"][0]), "region")]
+            ipush = [(bi, t) for (bi, t) in b.calls() if callee_tag(t.get("callee")) == ("IndexContainer", "push")
+                     and is_field(operand_tree(ctx, t["args"][0]), "indices")]
+            if not rpush and not ipush:
+                continue
+            found += len(rpush)
+            if len(rpush) != len(ipush):
                 ok = False
-                why.append("indices.push(%s)" % show(a)[:80])
-        if used != {bi for (bi, _) in rpush}:
-            ok = False
-            why.append("a region.push result is not stored")
-        # no path from a region.push to the exit, or around the loop, that skips the indices.push
-        ibbs = {bi for (bi, _) in ipush}
-        for (rbi, rt) in rpush:
-            tgt = rt["target"]
-            reach = b.reachable(tgt, ibbs) if tgt is not None else set()
-            if any(b.term(x)["k"] == "return" for x in reach) or rbi in reach:
+                why.append("%d region.push vs %d indices.push in %s" % (len(rpush), len(ipush), b.path))
+            used = set()
+            for (ibi, it) in ipush:
+                a = operand_tree(ctx, it["args"][1])
+                if a[0] == "call" and a[1] == ("Push", "push") and a[4] in {bi for (bi, _) in rpush} and a[3] == ():
+                    used.add(a[4])
+                else:
+                    ok = False
+                    why.append("indices.push(%s)" % show(a)[:80])
+            if used != {bi for (bi, _) in rpush}:
                 ok = False
-                why.append("a path from region.push (line %s) skips indices.push" % rt["line"])
-        # the pushed item is the parameter / the iterator's element, unchanged
-        for (rbi, rt) in rpush:
-            a = operand_tree(ctx, rt["args"][1])
-            good = a == ("place", b.key, ("arg", 2), ()) or \
-                (a[0] == "call" and a[1] == ("Iterator", "next"))
-            if not good:
-                ok = False
-                why.append("region.push(%s)" % show(a)[:80])
+                why.append("a region.push result is not stored")
+            ibbs = {bi for (bi, _) in ipush}
+            for (rbi, rt) in rpush:
+                tgt = rt["target"]
+                reach = b.reachable(tgt, ibbs) if tgt is not None else set()
+                if any(b.term(x)["k"] == "return" for x in reach) or rbi in reach:
+                    ok = False
+                    why.append("a path from region.push (line %s) skips indices.push" % rt["line"])
+            for (rbi, rt) in rpush:
+                a = operand_tree(ctx, rt["args"][1])
+                item_like = a == ("place", top.key, ("arg", 2), ()) or \
+                    (a[0] == "call" and a[1] == ("Iterator", "next")) or \
+                    (a[0] == "place" and a[2] == ("arg", 2))  # element of the iterator argument / closure parameter
+                if not item_like:
+                    ok = False
+                    why.append("region.push(%s)" % show(a)[:80])
+        if found == 0:
+            R.undecided_site("R-PAIRING", top.label(), "no region.push found in the body or its closures")
+            continue
         # nothing else writes indices / region
-        others = [e for e in effs if e.cls in ("append", "destructive", "clear", "assign") and e.ctx is ctx
-                  and self_field_targets(e, ctx) and e.bb not in ibbs and e.bb not in {bi for (bi, _) in rpush}]
+        others = [e for e in effs if e.cls in ("destructive", "clear", "assign") and self_field_targets(e, tctx)]
         if others:
             ok = False
             why.append("other writes: %s" % [(e.cls, e.tag[1]) for e in others])
-        R.check("R-PAIRING", b.label(), ok,
+        R.check("R-PAIRING", top.label(), ok,
                 construct="every region.push result goes, unchanged, into exactly one indices.push",
-                where=b.where(), detail="; ".join(why) or "%d region.push / %d indices.push" % (len(rpush), len(ipush)))
+                where=top.where(), detail="; ".join(why) or "%d region.push sites, each paired" % found)
     # from_iter = with_capacity + extend
     for b in fs_methods(F, "from_iter", "FromIterator"):
         R.saw(b)
